@@ -22,6 +22,9 @@ ASSUMPTIONS = [
 def deductive(check, tier):
     for c in MEMO.ALL:
         verify(c, tier, check)
+    import contracts.valuemodel as VM
+    for c in VM.ALL:            # the constructors / accessors behave as the executor's value model of Chunk and FmtStr says
+        verify(c, tier, check)
     mod = load_module("formatstring")
     path = inspect.getsourcefile(mod)
     import time
